@@ -314,7 +314,7 @@ class Composite(LexicalParent[Node], HasCreator, Node, ABC):
                     exception = child.future.exception()
                 errors[child.full_label] = (
                     exception
-                    if isinstance(exception, Exception)
+                    if isinstance(exception, BaseException)
                     else RuntimeError(f"{child.full_label} failed")
                 )
 
